@@ -1,4 +1,5 @@
 import NetProto.Model.Ports
+import NetProto.Model.Header
 /-! Model of the stack's receive path for UDP: NIC address table, route table, transport
 demultiplexer, UDP endpoints (bind / connect / read / write / shutdown / close) and the
 receive queue (core only).  Addresses are byte lists; `[]` is the wildcard / unset address. -/
@@ -344,5 +345,47 @@ def deliverUdp (w : World) (nic netProto : Nat) (src dst : Addr) (sport dport ud
       match w.udp[i]? with
       | none => (w, none)
       | some e => (w.setUdp i (udpHandle e nic src sport udpLenField payload), some i)
+
+/-! ### ICMP echo -/
+
+def echoQueueCap : Nat := 10
+
+/-- ICMPv4 `handleICMP` echo branch + `sendPing4`: `msg` is the ICMP message, of which the first
+    `firstLen` bytes are in the first view. Returns the reply ICMP message. -/
+def echo4Reply (msg : List Nat) (firstLen : Nat) : Option (List Nat) :=
+  let v := msg.take firstLen
+  if v.length < 4 then none
+  else if v.getD 0 0 != 8 then none
+  else if v.length < 6 then none
+  else
+    let data := msg.drop 4            -- identifier, sequence number, payload
+    let hdr6 := [0, 0, 0, 0] ++ data.take 2
+    let ck := 65535 - Model.Header.checksum hdr6 (Model.Header.checksum (data.drop 2) 0)
+    some ([0, 0] ++ Model.Header.be16 ck ++ data)
+
+/-- ICMPv6 echo request → reply (`src`/`dst` as in the request) -/
+def echo6Reply (src dst : Addr) (msg : List Nat) (firstLen : Nat) : Option (List Nat) :=
+  let v := msg.take firstLen
+  if v.length < 4 then none
+  else if v.getD 0 0 != 128 then none
+  else if v.length < 8 then none
+  else
+    let rest := msg.drop 8
+    let pkt0 := [129, v.getD 1 0, 0, 0] ++ (msg.drop 4).take 4
+    let len := pkt0.length + rest.length
+    -- pseudo header: src = pinged address, dst = requester, length, next header 58; then payload views, then header
+    let x := Model.Header.checksum dst 0
+    let x := Model.Header.checksum src x
+    let x := Model.Header.checksum (Model.Header.be32 len) x
+    let x := Model.Header.checksum [0, 0, 0, 58] x
+    let x := Model.Header.checksum rest x
+    let ck := 65535 - Model.Header.checksum pkt0 x
+    some ([129, v.getD 1 0] ++ Model.Header.be16 ck ++ (msg.drop 4).take 4 ++ rest)
+
+/-- who answers: the NIC must accept the destination (then the reply goes from `dst` back to `src`) -/
+def World.echoAccepted (w : World) (nic : Nat) (dst : Addr) : Bool :=
+  match w.nic nic with
+  | some n => n.accepts dst
+  | none => false
 
 end Model.Net
